@@ -176,7 +176,29 @@ def st_crc_lookalike():
 
     conf = M.st_conf(crc=1).filter(lambda c: c["seqw"] >= 2)
     kinds = st.sampled_from(["finished", "finished", "eof", "metadata"])
-    pdu = kinds.flatmap(lambda k: M.st_pdu(k, conf, small=True))
+
+    def open_tlv_area(p):
+        """Half of the PDUs are put into the shape in which a further TLV behind the last one would be legal: a Finished PDU with at
+        least one filestore response, a condition code that admits a fault location and none present; an EOF with an error code and no
+        fault location; a Metadata PDU with at least one option."""
+        if p["conf"]["seq"] % 2:
+            return p
+        p = dict(p)
+        if p["kind"] == "finished":
+            p["fault"] = None
+            if p["cc"] not in M.FIN_FAULT_CCS:
+                p["cc"] = 4
+            if not p["responses"]:
+                p["responses"] = [{"t": "fsresp", "action": 0, "status": 0, "n1": "a", "n2": "", "msg": ""}]
+        elif p["kind"] == "eof":
+            p["fault"] = None
+            if p["cc"] == 0:
+                p["cc"] = 5
+        elif p["kind"] == "metadata" and not p.get("options"):
+            p["options"] = [{"t": "flow", "v": "01"}]
+        return p
+
+    pdu = kinds.flatmap(lambda k: M.st_pdu(k, conf, small=True)).map(open_tlv_area)
     # one generated PDU, one trailer type: every pseudo length in {0,1,2,3,4,8} x every suffix that is 0, 1, 2 or 4 octets longer than it
     return st.tuples(pdu, st.sampled_from([0x06, 0x06, 0x01, 0x02, 0x05, 0x04, 0x00]), st.integers(0, 2)).map(
         lambda t: {"variants": [build((t[0], t[1], tlen, extra, t[2])) for tlen in (0, 1, 2, 3, 4, 8) for extra in (0, 1, 2, 4)]})
